@@ -352,9 +352,19 @@ class CountingMonitor(Monitor):
     pass
 
 
+_MODEL_BEH = {}  # nworkers -> {lock-level programs: set of behaviours as ((wid, act), ...)}; filled in run(), inherited by fork
+
+
+def lock_level(spec):
+    return tuple(tuple("R" if s["kind"] == "R" else "W" for s in w["sessions"]) for w in spec)
+
+
 def run_spec(ctx, bench: Bench, spec, bound, stats, max_viol=6):
     progs = bench.programs(spec)
     fctx = fault_context(spec)
+    allowed = None
+    if fctx == "nofault":
+        allowed = _MODEL_BEH.get(bench.n, {}).get(lock_level(spec))
     seen_sigs = set()
     nviol = [0]
 
@@ -370,6 +380,13 @@ def run_spec(ctx, bench: Bench, spec, bound, stats, max_viol=6):
         verdicts = list(x.verdicts)
         if not verdicts and len(x.logs) == bench.n:
             verdicts = judge(bench, spec, x)
+            if allowed is not None:
+                # conformance in the other direction: what the implementation did at lock level
+                # must be a behaviour of the TLA+ session model (explored exhaustively by TLC)
+                got = tuple((w, "acq" if e == "acq" else "rel") for e, w, _ in x._events)
+                ctx.add_note("executions_checked_against_model", 1)
+                if got not in allowed:
+                    verdicts.append(("lock-level-behaviour-outside-the-RW-model", f"events {got} are not a behaviour of models/Sessions.tla for programs {lock_level(spec)}"))
         npre = schedx.preemptions_before(x, len(x.points))
         ctx.count(evaluations=1, traces=1, transitions=len(x.choices))
         order = tuple((w, l) for (w, l, i) in x.trace if l in ("lock?", "unlock"))
@@ -517,6 +534,86 @@ def part_fault(sc, part):
         sc.add_note(f"executions_with_{k}_preemptions", v)
 
 
+class TraceFollower:
+    """drives the scheduler along one behaviour of models/Sessions.tla: the i-th lock-level event
+    (acquire/release) on the implementation must be the i-th step of the model behaviour"""
+
+    def __init__(self, trace):
+        self.trace = trace
+
+    def __call__(self, order, pending, mon):
+        i = len(mon.events)
+        if i >= len(self.trace):
+            return 0  # the behaviour is complete: drain what is left (closes, final messages)
+        w = self.trace[i][0]
+        if w in order:
+            return order.index(w)
+        return None
+
+
+def part_model(sc, part):
+    """replays behaviours of the TLA+ session model against the implementation"""
+    nworkers, items = part
+    bench = Bench(sc, nworkers, "m")
+    sp_all = ["abs", "rel", "sym"]
+    try:
+        for progs_lock, trace in items:
+            spec = []
+            for wid, kinds in enumerate(progs_lock):
+                spec.append({"spelling": sp_all[(wid + sc.seed) % 3], "buf": ["dflt", "large"][wid % 2], "ro": False, "sessions": mk_sessions(wid, kinds, sc.seed)})
+            progs = bench.programs(spec)
+            bench.ctl.monitor_factory = lambda: setattr(bench, "_mon", Monitor()) or bench._mon
+            x = bench.ctl.run(progs, [], bench.reset_env, chooser=TraceFollower(trace))
+            x._events = list(bench._mon.events)
+            sc.count(evaluations=1, traces=1, transitions=len(x.choices))
+            sc.add_note("model_behaviours_replayed", 1)
+            got = [(w, "acq" if e == "acq" else "rel") for e, w, _ in x._events]
+            want = [(w, a) for w, a, _ in trace]
+            verdicts = list(x.verdicts)
+            if not verdicts and len(x.logs) == bench.n:
+                if got != want:
+                    verdicts.append(("implementation-left-the-model-behaviour", f"lock-level events {got} != model behaviour {want}"))
+                verdicts += judge(bench, spec, x)
+            dig = hashlib.sha1(repr((progs_lock, trace)).encode()).hexdigest()
+            sc.state_keys.add(hashlib.blake2b(("model" + dig).encode(), digest_size=10).digest())
+            sc.outcome(hashlib.sha1(repr((got, sorted((k, repr(v)) for k, v in x.logs.items()))).encode()).hexdigest())
+            sc.nontrivial(dig)
+            for sym, detail in verdicts:
+                if sym == "model-behaviour-refused":
+                    # the property does not promise that readers overlap: a stronger lock is not a
+                    # violation; recorded (non-deciding) so that a model/implementation drift is visible
+                    sc.add_note("model_behaviours_refused", 1)
+                    continue
+                sc.violation(f"{sym}:model-replay", detail, {"nworkers": bench.n, "spec": spec, "model_trace": [list(t) for t in trace]})
+    finally:
+        bench.close()
+
+
+def model_behaviours(ctx, nworkers, menu):
+    from mc import tlcx
+
+    try:
+        stats, beh = tlcx.behaviours(Path(ctx.scratch) / f"tlc{nworkers}", nworkers, menu)
+    except tlcx.TLCUnavailable as e:
+        ctx.note(f"tlc_{nworkers}proc", f"skipped: {str(e)[:200]}")
+        return None
+    ctx.note(f"tlc_{nworkers}proc", stats)
+    _MODEL_BEH[nworkers] = {k: {tuple((w, a) for w, a, _ in tr) for tr in v} for k, v in beh.items()}
+    return beh
+
+
+def model_family(ctx, nworkers, beh, nproc):
+    if beh is None:
+        return
+    items = []
+    for progs_lock in sorted(beh):
+        if not any("W" in p for p in progs_lock):
+            continue
+        for tr in beh[progs_lock]:
+            items.append((progs_lock, tr))
+    ctx.pmap(part_model, [(nworkers, c) for c in chunks(items, nproc * 2)], nproc=nproc)
+
+
 def chunks(lst, n):
     k = max(1, (len(lst) + n - 1) // n)
     return [lst[i : i + k] for i in range(0, len(lst), k)]
@@ -541,6 +638,8 @@ def run(ctx):
     r = seed % 3
     sp2 = (sp_all[r:] + sp_all[:r])
     nproc = 16 if ctx.thorough else 8
+    menu2 = [s for L in (1, 2) for s in itertools.product("RW", repeat=L)]
+    beh2 = model_behaviours(ctx, 2, menu2)
     if not ctx.thorough:
         bound = 2
         # one of the two spellings always goes through the symlinked directory
@@ -552,16 +651,20 @@ def run(ctx):
         ctx.pmap(part_fault, [(1, c) for c in chunks(fss, nproc)], nproc=nproc)
         specsc = ctor_specs(ctx, 2, list(sp_q))
         ctx.pmap(part_plain, [(2, 2, c) for c in chunks(specsc, nproc)], nproc=nproc)
+        model_family(ctx, 2, beh2, nproc)
         ctx.bound = {"processes": 2, "sessions_total": 4, "preemptions": bound, "fault_family_preemptions": 1, "faults_per_execution": 1, "path_spellings": list(sp_q) + ["rel+sym in the fault family"]}
     else:
         specs2 = plain_specs(ctx, 2, 4, sp2[:2], ["dflt", "large"])
         ctx.pmap(part_plain, [(2, 3, c) for c in chunks(specs2, nproc)], nproc=nproc)
+        beh3 = model_behaviours(ctx, 3, menu2)
         specs3 = plain_specs(ctx, 3, 4, sp2, ["dflt", "large", "dflt"])
         ctx.pmap(part_plain, [(3, 2, c) for c in chunks(specs3, nproc * 4)], nproc=nproc)
         fss = fault_specs(ctx, ["dflt", "large"])
         ctx.pmap(part_fault, [(2, c) for c in chunks(fss, nproc * 2)], nproc=nproc)
         ctx.pmap(part_plain, [(2, 3, c) for c in chunks(ctor_specs(ctx, 2, sp2[:2]), nproc)], nproc=nproc)
         ctx.pmap(part_plain, [(3, 2, c) for c in chunks(ctor_specs(ctx, 3, sp2), nproc * 2)], nproc=nproc)
+        model_family(ctx, 2, beh2, nproc)
+        model_family(ctx, 3, beh3, nproc)
         ctx.bound = {"processes": "2 (bound 3) and 3 (bound 2)", "sessions_total": "4 / 4", "fault_family_preemptions": 2, "faults_per_execution": 1, "path_spellings": sp2}
 
 
